@@ -401,7 +401,7 @@ def install(m):
         (r"^<dyn Deref<Target = .*> as Deref>::deref$", m_dyn_deref),
         (r"^(core::)?slice::<impl \[.*\]>::(get|get_mut)::<usize>$|^Vec::<.*>::(get|get_mut)$", m_vec_get),
         (r"^GcCellRef(Mut)?::<.*>::map::<", m_guard_map),
-        (r"^<Vec<.*> as Index<(std::ops::)?Range(To|From|Full)?(<usize>)?>>::index$|^(core::)?slice::index::<impl Index<(std::ops::)?Range(To|From|Full)?(<usize>)?> for \[.*\]>::index$", m_vec_range_index),
+        (r"^<\[.*\] as Index<(std::ops::)?Range(To|From|Full)?(<usize>)?>>::index$|^<Vec<.*> as Index<(std::ops::)?Range(To|From|Full)?(<usize>)?>>::index$|^(core::)?slice::index::<impl Index<(std::ops::)?Range(To|From|Full)?(<usize>)?> for \[.*\]>::index$", m_vec_range_index),
         (r"^(core::)?slice::<impl \[.*\]>::get::<(std::ops::)?Range(To|From|Full)?(<usize>)?>$", m_slice_get_range),
         (r"^<std::slice::Iter<'_, .*> as Iterator>::rev$", m_iter_rev),
         (r"^<Rev<std::slice::Iter<'_, .*>> as IntoIterator>::into_iter$", m_iter_into_iter),
